@@ -144,8 +144,13 @@ def gen(rng):
             live.append([max(1, nxt - rng.randint(1, 3)), lep, 0])          # stale / duplicate
         elif f < 0.86:
             nxt += rng.randint(1, 3); live.append([nxt, lep, 0]); nxt += 1  # gap
-        elif f < 0.91:
+        elif f < 0.885:
             lep = 2 if lep == 1 else 1; live.append([nxt, lep, 0]); nxt += 1  # epoch change
+        elif f < 0.91:
+            # stream lost and re-created: new epoch, offsets restart low (at or below the position)
+            lep = 2 if lep == 1 else 1
+            low = rng.randint(1, max(1, nxt - 1))
+            live.append([low, lep, 0]); nxt = low + 1
         elif f < 0.95:
             live.append([nxt, lep, 1]); nxt += 1                             # lag
         else:
@@ -238,8 +243,15 @@ def oracle(op, out):
                             dict(base, kind="delivered-across-epoch"))
                 if sub_ep == 0:
                     sub_ep = e
-        elif sc["mode"] == "each" and idx < len(sc["live"]) and sub_ep == 0 and tok == "-":
-            pass
+        elif sc["mode"] == "each" and idx < len(sc["live"]):
+            o, e, lag = sc["live"][idx]
+            if tok == "-" and not lag and sub_ep != 0 and e != sub_ep and "end=none" in out.split("| L=")[0] + parts[-1] \
+                    and all(t in ("-",) or t.startswith("d") for t in livetok[:idx]):
+                return (f"live publication {o} of a different epoch ({e}, subscription epoch {sub_ep}) was silently "
+                        "skipped: an epoch change must end the subscription with insufficient state",
+                        dict(base, kind="epoch-change-not-ended"))
+            if sub_ep == 0 and tok in ("-",) and not lag:
+                sub_ep = e if sc["mode"] == "each" else sub_ep
     seq = pubs + live_deliv
     if any(p <= anchor for p in pubs):
         return (f"subscribe reply (offset {anchor}) carries publication(s) {[p for p in pubs if p <= anchor]} "
